@@ -15,9 +15,13 @@ def corrupted (w : World) : Bool :=
   (ro.phase = .progressing && ro.reason = .none) ||
   (ro.phase = .terminating && ro.term = .none) ||
   (ro.phase = .progressing && ro.reason = .inRolling && ro.sub.isNone) ||
-  (match ro.sub with
-   | some s => decide (s.curIdx < 1 ∨ s.curIdx > n) || s.lastUpdate = .none
-   | none => false) ||
+  -- the release manager indexes steps[currentStepIndex-1] and dereferences lastUpdateTime; every other path
+  -- (finalising, reset, terminating) falls back to the first step for an index outside the plan — such an
+  -- index is reachable through the API (drop a step while Healthy, then delete the Rollout)
+  (ro.phase = .progressing && ro.reason = .inRolling &&
+   (match ro.sub with
+    | some s => decide (s.curIdx < 1 ∨ s.curIdx > n) || s.lastUpdate = .none
+    | none => false)) ||
   -- a BatchRelease without (or with an out-of-range) batch partition is dereferenced only when a plan change
   -- is recalculated while rolling
   (ro.phase = .progressing && ro.reason = .inRolling &&
